@@ -11,7 +11,7 @@ TECH = "machine-checked proof in Coq"
 C = {}
 C["C01"] = ("Theorem C01: for every hash-order oracle, every wf+closed+plain grammar, defined rule, string over N and offset 0..|s| the engine model answers from some fuel on and its set of end offsets equals the RFC 5234/7405 relation M exactly (soundness, completeness, termination, no GrammarError), unbounded in grammar and input. Tie: end sets of Rule.lparse vs the extracted model on generated grammars x derived/mutated/random inputs x all offsets.",
             TECH + " (induction on fuel / derivations / lexicographic termination measure) + differential correspondence of the extracted model", "DESIGN.md 4 C01")
-C["C02"] = ("Theorems C02_parse / C02_parse_all: parse succeeds iff some end is derivable and returns the greatest derivable end with a tree whose text is s[i:end); parse_all succeeds iff |s| is a derivable end and its tree covers s. Tie: Rule.parse / parse_all outcomes vs extracted model.",
+C["C02"] = ("Theorems C02_parse / C02_parse_all (plain grammars, against the RFC relation M) and C02_parse_with_flags / C02_parse_all_with_flags (every wf closed grammar incl. first-match flags and exclusions, against the engine's denotation, which C11 shows to be the unique solution of the semantic equations): parse succeeds iff some end exists and returns the greatest one with a tree whose text is s[i:end); parse_all succeeds iff |s| is an end and its tree covers s. Tie: Rule.parse / parse_all outcomes vs extracted model, plain and flagged grammars.",
             TECH + " + differential correspondence", "DESIGN.md 4 C02")
 C["C03"] = ("Theorems C03_lparse/parse/parse_all: every tree the engine model offers (any grammar with min<=max bounds, flags and exclusions included) has the rule name at the root, is a derivation (relation D) of the rule over s[i:end), and its leaves tile s[i:end) with exact offsets, lengths and source-case texts. Tie: exact tree equality implementation vs model for every offered match.",
             TECH + " (soundness w.r.t. a derivation-tree relation) + exact-tree differential correspondence", "DESIGN.md 4 C03")
